@@ -65,6 +65,120 @@ def make_key(name, wrong=False):
     return sd.sym_key(kid.encode('ascii'), k, alg, ops)
 
 
+# ---------------------------------------------------------------------------------------------- certificates
+
+PKI_FILE = os.path.join(VERIF, 'harness', 'corpus', 'C12_pki.json')
+# What the signer's end-entity certificate looks like.  Only 'good' authenticates the claimed security source
+# dtn://src/ to a receiver that trusts CA 'ca1' (id-on-bundleEID SAN naming the source, digitalSignature key usage,
+# id-kp-bundleSecurity EKU, valid at the bundle creation time, chain to the trusted CA).
+CERT_VARIANTS = ['good', 'untrusted_ca', 'other_node', 'no_san', 'san_dns_only', 'no_eku', 'wrong_eku', 'no_ku_ds', 'expired', 'not_yet']
+X5_MODES = ['x5chain', 'x5t', 'x5t_unknown']     # chain in the block / thumbprint + certificate in the receiver's store / thumbprint only
+_PKI = {}
+
+
+def _gen_pki():
+    ''' CA ca1 (trusted by the receiver), CA ca2 (not trusted) and one end-entity certificate per variant, built
+    like bp/test/test_app_bpsec.py builds them (EC P-256).  :return: dict of PEM strings. '''
+    import datetime
+    import asn1
+    from cryptography import x509
+    from cryptography.hazmat.backends import default_backend
+    from cryptography.hazmat.primitives import hashes, serialization
+    from cryptography.hazmat.primitives.asymmetric import ec
+
+    def utc(year):
+        return datetime.datetime(year, 1, 1, tzinfo=datetime.timezone.utc)
+
+    def pem_key(key):
+        return key.private_bytes(serialization.Encoding.PEM, serialization.PrivateFormat.PKCS8, serialization.NoEncryption()).decode('ascii')
+
+    def pem_cert(cert):
+        return cert.public_bytes(serialization.Encoding.PEM).decode('ascii')
+
+    def ca(name, serial):
+        key = ec.generate_private_key(ec.SECP256R1(), backend=default_backend())
+        subj = x509.Name([x509.NameAttribute(x509.oid.NameOID.COMMON_NAME, name)])
+        cert = x509.CertificateBuilder().subject_name(subj).issuer_name(subj).public_key(key.public_key()).serial_number(
+            serial).not_valid_before(utc(2020)).not_valid_after(utc(2120)).add_extension(
+            x509.BasicConstraints(ca=True, path_length=1), critical=True).add_extension(
+            x509.KeyUsage(digital_signature=False, content_commitment=False, key_encipherment=False, data_encipherment=False,
+                          key_agreement=False, key_cert_sign=True, crl_sign=True, encipher_only=False, decipher_only=False),
+            critical=False).add_extension(x509.SubjectKeyIdentifier.from_public_key(key.public_key()), critical=False).add_extension(
+            x509.AuthorityKeyIdentifier.from_issuer_public_key(key.public_key()), critical=False).sign(key, hashes.SHA256(), backend=default_backend())
+        return (key, cert)
+
+    def eid_san(eid):
+        enc = asn1.Encoder()
+        enc.start()
+        enc.write(eid.encode('ascii'), asn1.Numbers.IA5String)
+        return x509.OtherName(x509.oid.ObjectIdentifier('1.3.6.1.5.5.7.8.11'), enc.output())    # id-on-bundleEID
+
+    def end(variant, serial, ca_key, ca_cert):
+        key = ec.generate_private_key(ec.SECP256R1(), backend=default_backend())
+        (start, stop) = {'expired': (2020, 2021), 'not_yet': (2090, 2120)}.get(variant, (2020, 2120))
+        bld = x509.CertificateBuilder().subject_name(x509.Name([x509.NameAttribute(x509.oid.NameOID.COMMON_NAME, 'end-entity')])).issuer_name(
+            ca_cert.subject).public_key(key.public_key()).serial_number(serial).not_valid_before(utc(start)).not_valid_after(utc(stop)).add_extension(
+            x509.BasicConstraints(ca=False, path_length=None), critical=True)
+        if variant == 'other_node':
+            bld = bld.add_extension(x509.SubjectAlternativeName([eid_san('dtn://other/')]), critical=False)
+        elif variant == 'san_dns_only':
+            bld = bld.add_extension(x509.SubjectAlternativeName([x509.DNSName('src.example')]), critical=False)
+        elif variant != 'no_san':
+            bld = bld.add_extension(x509.SubjectAlternativeName([eid_san(SRC)]), critical=False)
+        sign = variant != 'no_ku_ds'
+        bld = bld.add_extension(x509.KeyUsage(digital_signature=sign, content_commitment=False, key_encipherment=False, data_encipherment=False,
+                                              key_agreement=not sign, key_cert_sign=False, crl_sign=False, encipher_only=False,
+                                              decipher_only=False), critical=False)
+        if variant == 'wrong_eku':
+            bld = bld.add_extension(x509.ExtendedKeyUsage([x509.oid.ExtendedKeyUsageOID.SERVER_AUTH]), critical=False)
+        elif variant != 'no_eku':
+            bld = bld.add_extension(x509.ExtendedKeyUsage([x509.oid.ObjectIdentifier('1.3.6.1.5.5.7.3.35')]), critical=False)   # id-kp-bundleSecurity
+        bld = bld.add_extension(x509.SubjectKeyIdentifier.from_public_key(key.public_key()), critical=False).add_extension(
+            x509.AuthorityKeyIdentifier.from_issuer_public_key(ca_key.public_key()), critical=False)
+        return (key, bld.sign(ca_key, hashes.SHA256(), backend=default_backend()))
+
+    (k1, c1) = ca('CA one', 1000)
+    (k2, c2) = ca('CA two', 2000)
+    out = dict(ca1=dict(ca_key=pem_key(k1), ca_cert=pem_cert(c1)), ca2=dict(ca_key=pem_key(k2), ca_cert=pem_cert(c2)), end={})
+    for (idx, variant) in enumerate(CERT_VARIANTS):
+        (ca_key, ca_cert) = (k2, c2) if variant == 'untrusted_ca' else (k1, c1)
+        (key, cert) = end(variant, 3000 + idx, ca_key, ca_cert)
+        out['end'][variant] = dict(end_key=pem_key(key), end_cert=pem_cert(cert), ca=('ca2' if variant == 'untrusted_ca' else 'ca1'))
+    return out
+
+
+def pki_data():
+    ''' Generated once and kept in the corpus so that certificates are the same on every run. '''
+    if not _PKI:
+        data = None
+        if os.path.exists(PKI_FILE):
+            with open(PKI_FILE) as infile:
+                data = json.load(infile)
+            if sorted(data.get('end', {})) != sorted(CERT_VARIANTS):
+                data = None
+        if data is None:
+            data = _gen_pki()
+            tmp = PKI_FILE + '.tmp.%d' % os.getpid()
+            with open(tmp, 'w') as out:
+                json.dump(data, out, indent=1, sort_keys=True)
+            os.replace(tmp, PKI_FILE)
+        _PKI.update(data)
+    return _PKI
+
+
+def signer_pki(variant):
+    ''' dict in the shape bpsecdrive.SecNode.add_pki wants: the signer's certificate + key and ITS issuing CA '''
+    data = pki_data()
+    ent = data['end'][variant]
+    return dict(ca_cert=data[ent['ca']]['ca_cert'], end_cert=ent['end_cert'], end_key=ent['end_key'])
+
+
+def trusted_pki():
+    ''' what the receiver trusts: CA one (the end-entity entry is not used by add_pki(signer=False)) '''
+    data = pki_data()
+    return dict(ca_cert=data['ca1']['ca_cert'], end_cert=data['end']['good']['end_cert'], end_key=data['end']['good']['end_key'])
+
+
 # ---------------------------------------------------------------------------------------------- building
 
 def base_spec(case):
@@ -87,9 +201,14 @@ def build(case):
         encrypted=[numbers of blocks some BCB targets]) '''
     from bp.util import BundleContainer
     from bp.encoding import Bundle
-    node = sd.SecNode(SRC, tx_routes=[dict(pattern='.*')])
+    pki = case.get('pki')
+    # the signer always sends the chain (x5chain); for the thumbprint modes the additional unprotected headers - which
+    # the signature does not cover - are rewritten afterwards to x5t (the stock pycose here cannot encode an X5T itself)
+    node = sd.SecNode(SRC, tx_routes=[dict(pattern='.*')], include_chain=True)
     for name in sorted(KEYS):
         node.add_sym_key(make_key(name))
+    if pki:
+        node.add_pki(signer_pki(pki['variant']), signer=True, kid=b'sign')
     spec = base_spec(case)
     plain = {1: spec['payload']}
     for blk in spec['blocks']:
@@ -101,7 +220,7 @@ def build(case):
     for (idx, op) in enumerate(list(case.get('ops', ())) or [None]):
         del node.ctx.sec_assoc[:]
         if op is not None:
-            node.add_policy(op['sec'], KEYS[op['key']][0].encode('ascii'), tuple(op['types']),
+            node.add_policy(op['sec'], (b'sign' if op['key'] == 'S' else KEYS[op['key']][0].encode('ascii')), tuple(op['types']),
                             content_iv=[bytes([idx + 1, tix]) * 6 for tix in range(8)])
         if raw is None:
             raw = node.send(spec)
@@ -125,9 +244,30 @@ def build(case):
             ops_info.append(dict(num=new[0][1], sec=op['sec'], key=op['key'], targets=list(asb['targets'])))
             if op['sec'] == 'bcb':
                 encrypted.update(asb['targets'])
+    if pki and pki.get('x5', 'x5chain') != 'x5chain':
+        raw = chain_to_thumbprint(raw, [info['num'] for info in ops_info if info['key'] == 'S'])
     clean = raw
     raw = apply_malformations(case, clean, ops_info)
     return dict(raw=raw, clean=clean, ops=ops_info, plain=plain, encrypted=sorted(encrypted))
+
+
+def chain_to_thumbprint(raw, nums):
+    ''' In the security blocks ``nums``: additional unprotected headers {33: x5chain} -> {34: [-16, SHA-256 of the
+    end-entity certificate]} (RFC 9360 x5t), plain cbor2, CRCs re-fixed. '''
+    items = [copy.deepcopy(item) for (item, _raw, _off) in sd.split_bundle(raw)]
+    for item in items[1:]:
+        if item[1] not in nums:
+            continue
+        asb = sd.asb_decode(item[4])
+        for par in asb['params']:
+            if par[0] == 4:
+                hdr = cbor2.loads(par[1])
+                chain = hdr.pop(33)
+                first = chain if isinstance(chain, bytes) else chain[0]
+                hdr[34] = [-16, hashlib.sha256(first).digest()]
+                par[1] = cbor2.dumps(hdr)
+        item[4] = sd.asb_encode(asb)
+    return sd.join_bundle(items)
 
 
 def _flip(data, pos=0):
@@ -241,9 +381,14 @@ class Receiver(object):
     every chain step after the BPSec steps (were application steps invoked at all), wrappers around the
     context's verify_bib / verify_bcb (and verify_*_target when the context has them). '''
 
-    def __init__(self, keystore, accept, report_route=True):
+    def __init__(self, keystore, accept, report_route=True, pki=None):
         self.node = sd.SecNode(NODE, accept_after_verify=accept, rx_routes=[('^dtn://me/.*', 'deliver')],
                                tx_routes=([dict(pattern='.*')] if report_route else []))
+        if pki:
+            # the receiver trusts CA one; for thumbprint lookup its certificate store knows the signer's certificate
+            self.node.add_pki(trusted_pki(), signer=False)
+            if pki.get('x5') == 'x5t':
+                self.node.add_cert_to_store(signer_pki(pki['variant']))
         for (name, how) in sorted(keystore.items()):
             if how == 'ok':
                 self.node.add_sym_key(make_key(name))
@@ -380,7 +525,7 @@ class Receiver(object):
 def run_impl(case, built=None):
     if built is None:
         built = build(case)
-    rcv = Receiver(case.get('keystore', {}), bool(case.get('accept')))
+    rcv = Receiver(case.get('keystore', {}), bool(case.get('accept')), pki=case.get('pki'))
     obs = rcv.recv(built['raw'])
     return (built, obs)
 
@@ -546,6 +691,14 @@ def op_faults(case, built):
     ops = built['ops']
     faults = [set() for _ in ops]
     for (idx, info) in enumerate(ops):
+        if info['key'] == 'S':
+            # "wrong or missing key": only a certificate that authenticates the claimed security source gives a right key
+            pki = case.get('pki') or {}
+            if pki.get('variant') != 'good':
+                faults[idx].add('cert_' + str(pki.get('variant')))
+            if pki.get('x5') == 'x5t_unknown':
+                faults[idx].add('cert_thumbprint_unknown_to_receiver')
+            continue
         how = case.get('keystore', {}).get(info['key'], 'missing')
         if how != 'ok':
             faults[idx].add(how + '_key')
@@ -713,13 +866,44 @@ EXT = [dict(type=7, num=5, data_hex='1903e8'), dict(type=192, num=6, data_hex='0
 ADMIN_PAYLOAD = cbor2.dumps([1, [[[True], [False], [False], [False]], 0, [1, '//x/'], [0, 0]]])
 
 
-def mk_case(ops, mal=(), keystore=None, accept=False, flags=None, payload=b'hello world', dest='dtn://me/app', report_to=RPT, crc=2):
+def mk_case(ops, mal=(), keystore=None, accept=False, flags=None, payload=b'hello world', dest='dtn://me/app', report_to=RPT, crc=2, pki=None):
     ks = dict((op['key'], 'ok') for op in ops)
     ks.update(keystore or {})
     if flags is None:
         flags = FLAG_SETS[3]
-    return dict(ops=copy.deepcopy(list(ops)), mal=[dict(item) for item in mal], keystore=ks, accept=bool(accept), flags=flags,
+    case = dict(ops=copy.deepcopy(list(ops)), mal=[dict(item) for item in mal], keystore=ks, accept=bool(accept), flags=flags,
                 payload_hex=bytes(payload).hex(), ext=copy.deepcopy(EXT), dest=dest, report_to=report_to, crc=crc)
+    if any(op['key'] == 'S' for op in ops):
+        case['keystore'].pop('S', None)
+        case['pki'] = dict(pki or dict(variant='good', x5='x5chain'))
+    return case
+
+
+CERT_OPS_MENU = [
+    [dict(sec='bib', key='S', types=[1])],
+    [dict(sec='bib', key='S', types=[1, 7])],
+    [dict(sec='bib', key='A', types=[7]), dict(sec='bib', key='S', types=[1])],      # the certificate BIB is the second one
+    [dict(sec='bib', key='S', types=[1]), dict(sec='bib', key='B', types=[7])],
+    [dict(sec='bib', key='S', types=[7]), dict(sec='bcb', key='E', types=[1])],
+]
+
+
+def cert_cases():
+    ''' COSE_Sign1 (ES256) BIBs: signer certificate variant x key lookup (x5chain / x5t) x accept x block arrangement. '''
+    out = []
+    for accept in (False, True):
+        for variant in CERT_VARIANTS:
+            for x5 in X5_MODES:
+                for (idx, ops) in enumerate(CERT_OPS_MENU):
+                    if idx >= 2 and x5 == 'x5t_unknown':
+                        continue
+                    out.append(('cert:%s:%s' % (variant, x5), mk_case(ops, accept=accept, pki=dict(variant=variant, x5=x5))))
+        # a good certificate does not excuse altered content / structure
+        for kind in ('alter_target', 'alter_primary', 'alter_source', 'cose_edit', 'dup_result', 'missing_target', 'bad_cose'):
+            mal = dict(kind=kind) if kind == 'alter_primary' else dict(kind=kind, blk=0)
+            out.append(('cert:good+' + kind, mk_case(CERT_OPS_MENU[0], [mal], accept=accept, pki=dict(variant='good', x5='x5chain'))))
+            out.append(('cert:good+' + kind, mk_case(CERT_OPS_MENU[0], [mal], accept=accept, pki=dict(variant='good', x5='x5t'))))
+    return out
 
 
 def directed_cases():
@@ -772,14 +956,19 @@ def directed_cases():
 
 
 def random_case(rng):
-    ops = copy.deepcopy(rng.choice(OPS_MENU))
+    pki = None
+    if rng.random() < 0.2:
+        ops = copy.deepcopy(rng.choice(CERT_OPS_MENU))
+        pki = dict(variant=rng.choice(CERT_VARIANTS + ['good'] * 6), x5=rng.choice(['x5chain', 'x5chain', 'x5t', 'x5t', 'x5t_unknown']))
+    else:
+        ops = copy.deepcopy(rng.choice(OPS_MENU))
     mal = []
     keystore = {}
     nmal = rng.choice([0, 0, 1, 1, 1, 2]) if ops else 0
     for _ in range(nmal):
         roll = rng.random()
-        if roll < 0.2:
-            op = rng.choice(ops)
+        if roll < 0.2 and any(op['key'] != 'S' for op in ops):
+            op = rng.choice([op for op in ops if op['key'] != 'S'])
             how = rng.choice(['wrong', 'missing'])
             keystore[op['key']] = how
             mal.append(dict(kind=how + '_key', blk=ops.index(op)))
@@ -805,13 +994,13 @@ def random_case(rng):
     mal = kept
     payload = bytes(rng.randrange(256) for _ in range(rng.choice([1, 2, 5, 23, 24, 60, 300])))
     return mk_case(ops, mal, keystore=keystore, accept=rng.random() < 0.5, flags=rng.choice(FLAG_SETS), payload=payload,
-                   report_to=rng.choice([RPT, RPT, RPT, 'dtn:none']), crc=rng.choice([0, 1, 2]))
+                   report_to=rng.choice([RPT, RPT, RPT, 'dtn:none']), crc=rng.choice([0, 1, 2]), pki=pki)
 
 
 def case_shape(case):
     ''' identity of a case up to payload octets '''
     return json.dumps([case['ops'], case['mal'], sorted(case['keystore'].items()), case['accept'], case['flags'], case['dest'],
-                       case['report_to'], case['crc'], len(case['payload_hex'])], sort_keys=True)
+                       case['report_to'], case['crc'], len(case['payload_hex']), case.get('pki')], sort_keys=True)
 
 
 # ---------------------------------------------------------------------------------------------- main
@@ -850,7 +1039,8 @@ def load_corpus():
     for path in sorted(glob.glob(CORPUS_GLOB)):
         with open(path) as infile:
             doc = json.load(infile)
-        out.append((os.path.basename(path), doc['case']))
+        if 'case' in doc:        # C12_pki.json (certificates) lives next to the witnesses
+            out.append((os.path.basename(path), doc['case']))
     return out
 
 
@@ -859,9 +1049,13 @@ def replay(chk, path):
         doc = json.load(infile)
     rep = doc.get('replay', doc)
     case = rep['case']
-    (built, obs) = run_impl(case)
+    built = build(case)
     if rep.get('raw_hex') and rep['raw_hex'] != built['raw'].hex():
-        print('note: the rebuilt bundle differs from the recorded octets (send path changed?)')
+        if case.get('pki'):
+            built['raw'] = bytes.fromhex(rep['raw_hex'])    # ECDSA signatures are randomised: replay the recorded octets
+        else:
+            print('note: the rebuilt bundle differs from the recorded octets (send path changed?)')
+    (built, obs) = run_impl(case, built)
     print('case     :', json.dumps(case, sort_keys=True))
     print('bundle   :', built['raw'].hex())
     print('observed :', json.dumps(obs_summary(obs), sort_keys=True, default=repr))
@@ -897,6 +1091,7 @@ def main():
 
     cases = [('corpus:' + name, case) for (name, case) in load_corpus()]
     cases += [('directed:' + tag, case) for (tag, case) in directed_cases()]
+    cases += [('directed:' + tag, case) for (tag, case) in cert_cases()]
     n_random = 450 if chk.quick() else 24000
     for _ in range(n_random):
         cases.append(('random', random_case(chk.rng)))
